@@ -558,8 +558,8 @@ def hx(a):
 
 
 class Oracle:
-    def __init__(self, ctx, th):
-        self.ctx, self.th = ctx, th
+    def __init__(self, ctx, th, rng):
+        self.ctx, self.th, self.rng = ctx, th, rng
         self.tw = thr_value(th['twist_w'])
         self.t2 = thr_value(th['twist2_w'])
 
@@ -591,7 +591,7 @@ class Oracle:
         return max(np.max(np.abs(R @ R.T - np.eye(3))), abs(np.linalg.det(R) - 1))
 
     def matrices(self, N):
-        rng = self.ctx.rng
+        rng = self.rng
         sites = [('trnorm33', 3, lambda M: base.trnorm(M)), ('trnorm44', 4, lambda M: base.trnorm(M)),
                  ('SO3.norm', 3, lambda M: SO3(M, check=False).norm().A), ('SE3.norm', 4, lambda M: SE3(M, check=False).norm().A)]
         grid = [1e-15, 1e-12, 1e-9, 1e-6, 1e-4, 1e-3, 1e-2]
@@ -631,7 +631,7 @@ class Oracle:
 
     # ------------------------------------------------------------------ vectors and quaternions
     def vectors(self, N):
-        rng = self.ctx.rng
+        rng = self.rng
         uq1 = lambda q: UnitQuaternion([float(x) for x in q]).vec
         uq3 = lambda q: UnitQuaternion(np.asarray(q, float)).vec
         uq2 = lambda q: UnitQuaternion(float(q[0]), q[1:]).vec
@@ -700,7 +700,7 @@ class Oracle:
         return abs(wn - 1) if wn >= thr else abs(np.linalg.norm(U[:nv]) - 1)
 
     def twists(self, N):
-        rng = self.ctx.rng
+        rng = self.rng
         tw, t2 = self.tw, self.t2
         s3 = [('unittwist', base.unittwist), ('unittwist_norm', lambda S: base.unittwist_norm(S)[0]),
               ('Twist3.unit', lambda S: Twist3(S).unit.S)]
@@ -784,7 +784,7 @@ class Oracle:
         return d
 
     def angles(self, N):
-        rng = self.ctx.rng
+        rng = self.rng
         pi = math.pi
         special = [k * pi for k in range(-318, 319)] + [k * pi / 2 for k in range(-9, 10)] + [1e3, -1e3, 0.0]
         vals = list(special)
@@ -821,8 +821,13 @@ class Oracle:
         self.ctx.sample({'kind': 'oracle', 'law': 'angdiff range/congruent', 'a': vals[0], 'result': float(base.angdiff(float(vals[0])))})
 
 
-def oracle(ctx, th):
-    o = Oracle(ctx, th)
+def oracle_rng(seed):
+    """the oracle's own stream, a child of the run's seed (so that a replay can re-run the oracle alone)"""
+    return np.random.Generator(np.random.PCG64(np.random.SeedSequence(seed).spawn(1)[0]))
+
+
+def oracle(ctx, th, rng=None):
+    o = Oracle(ctx, th, rng if rng is not None else oracle_rng(ctx.seed))
     o.matrices(ctx.n(700, 15000))
     o.vectors(ctx.n(1500, 40000))
     o.twists(ctx.n(3000, 80000))
@@ -870,3 +875,28 @@ def run(ctx):
                              {'detail': repr(e)}, no_input=True)
     with ctx.timed('oracle'):
         oracle(ctx, th)
+
+
+def replay(ctx, path):
+    """oracle findings: re-run the oracle alone with the recorded seed and tier and look for the recorded key;
+    anything else (broken obligation, correspondence): re-run the whole check"""
+    import json
+    rec = json.load(open(path))
+    key = rec.get('key') or ('obligation:' + rec.get('broken_obligation', ''))
+    if key.startswith('oracle:'):
+        ctx.tier = rec.get('tier', ctx.tier)
+        try:
+            th = read_consts(ctx)
+        except ConstError:
+            th = DEFAULT_TH
+        oracle(ctx, th, oracle_rng(int(rec.get('seed', ctx.seed))))
+        keys = {f.key for f in ctx.findings}
+    else:
+        run(ctx)
+        keys = {f.key for f in ctx.findings} | {'obligation:' + o.name for o in ctx.obligations if o.ok is False}
+    if key in keys:
+        f = [x for x in ctx.findings if x.key == key]
+        print(f"REPRODUCED {key}" + (f": {f[0].what}" if f else ''))
+        return 1
+    print(f"not reproduced: {key}")
+    return 0
